@@ -416,5 +416,56 @@ def noiseLen (dur : Option α) (n : Nat) : Nat :=
   | none => n
   | some d => min n (rint d).toNat
 
+/-! ### `TableLookup` operators, `normalize`, `harmonize` (lazy_synth.py:454-493, 558-576) -/
+
+/-- the arithmetic operators of `TableLookupMeta.__operators__` that stay inside a field -/
+inductive TOp where
+  | add | sub | mul | div
+  deriving DecidableEq, Repr
+
+def TOp.app : TOp → α → α → α
+  | .add, x, y => x + y
+  | .sub, x, y => x - y
+  | .mul, x, y => x * y
+  | .div, x, y => x / y
+
+/-- `table1 <op> table2` (`__binary__`, TableLookup operand) -/
+def tblBinary (op : TOp) (t1 : List α) (c1 : α) (t2 : List α) (c2 : α) : Except String (List α) :=
+  if c1 ≠ c2 then .error "ValueError"
+  else if t1.length ≠ t2.length then .error "ValueError"
+  else .ok (List.zipWith op.app t1 t2)
+
+/-- `table <op> number` (`__binary__`) and `number <op> table` (`__rbinary__`) -/
+def tblScalar (op : TOp) (t : List α) (x : α) (reflected : Bool) : List α :=
+  t.map fun d => if reflected then op.app x d else op.app d x
+
+/-- `-table` (`__unary__`) -/
+def tblNeg (t : List α) : List α := t.map fun d => -d
+
+def absA (x : α) : α := if x < 0 then -x else x
+
+/-- `max(self.table, key=abs)`: the first element of maximal absolute value -/
+def maxAbs : List α → Option α
+  | [] => none
+  | x :: xs => some (xs.foldl (fun m y => if absA m < absA y then y else m) x)
+
+/-- `normalize()`: `self / max_abs`; ValueError for an all-zero table -/
+def tblNormalize (t : List α) : Except String (List α) :=
+  match maxAbs t with
+  | none => .error "ValueError"            -- max() of an empty sequence
+  | some m => if m = 0 then .error "ValueError" else .ok (t.map fun d => d / m)
+
+/-- `self.table[::stp]` -/
+def tblSlice (t : List α) (stp : Nat) : List α :=
+  (List.range ((t.length + stp - 1) / stp)).map fun i => t.getD (i * stp) 0
+
+/-- `harmonize({partial: amplitude})`:
+    `sum(cycle(self.table[::partial+1]) * amplitude for ...)`, `len(self)` items -/
+def tblHarmonize (t : List α) (harm : List (Nat × α)) : List α :=
+  (List.range t.length).map fun k =>
+    harm.foldl (fun acc pa =>
+      let sl := tblSlice t (pa.1 + 1)
+      acc + sl.getD (k % sl.length) 0 * pa.2) 0
+
 end Arith
 end ALV.C19
